@@ -342,3 +342,79 @@ def h_evolution_deps(d_ae: bool, d_am: bool, d_be: bool, d_bm: bool, move: int, 
               set(deps['before_evolutions']) == set(declared['BEFORE_EVOLUTIONS']) and
               set(deps['before_migrations']) == set(declared['BEFORE_MIGRATIONS']))
     return hx.verdict(ok, bool(move) or d_ae or d_am or d_be or d_bm)
+
+
+class _FakeMeta(object):
+    def __init__(self, name):
+        self.model_name = name
+        self.object_name = name
+
+
+class _FakeModelCls(object):
+    def __init__(self, name):
+        self._meta = _FakeMeta(name)
+
+
+def h_graph_models(d_kind: int, d_from: int, d_to: int, n0: int, n1: int, n2: int,
+                   a0: int, a1: int, a2: int, m0: bool, m1: bool, m2: bool, order: int) -> bool:
+    """Apps that (also) have models to create: an app is registered when it has pending evolutions
+    or new models (as EvolveAppTask._build_evolutions_graph does); its create-model unit runs before
+    its evolutions; an app-level AFTER_/BEFORE_EVOLUTIONS declaration binds all units of the
+    declaring app, also when only a model creation is pending.
+
+    d_kind: 0 none, 1 AFTER (app, 'e1'), 2 AFTER app, 3 BEFORE (app, 'e1'), 4 BEFORE app
+    pre: 0 <= d_kind <= 4 and 0 <= d_from <= 2 and 0 <= d_to <= 2 and d_from != d_to and 0 <= order <= 1
+    pre: 0 <= n0 <= 1 and 0 <= n1 <= 1 and 0 <= n2 <= 1 and 0 <= a0 <= n0 and 0 <= a1 <= n1 and 0 <= a2 <= n2
+    pre: d_kind != 0 or (d_from == 0 and d_to == 1)
+    pre: hx.in_part(d_kind, d_from, d_to)
+    pre: not hx.excluded(d_kind, d_from, d_to, n0, n1, n2, a0, a1, a2, m0, m1, m2, order)
+    post: _
+    """
+    (d_kind, d_from, d_to, n0, n1, n2, a0, a1, a2, order) = [
+        hx.realize(x) for x in (d_kind, d_from, d_to, n0, n1, n2, a0, a1, a2, order)]
+    new = [bool(hx.realize(x)) for x in (m0, m1, m2)]
+    counts, applied_n = [n0, n1, n2], [a0, a1, a2]
+    if d_kind in (1, 3) and counts[d_to] == 0:
+        return hx.verdict(True, False)          # a named target evolution must exist
+    specs = [{'labels': ['e1'][:counts[i]], 'app_deps': {}, 'evo_deps': {}} for i in range(N_APPS)]
+    dep = _dep(d_kind, d_from, d_to, 0)
+    if dep:
+        specs[d_from]['app_deps'] = dep
+    applied = [specs[i]['labels'][:applied_n[i]] for i in range(N_APPS)]
+    try:
+        with _FakeApps(specs) as fa:
+            g = EvolutionGraph()
+            g.process_migration_deps = False
+            for i in [[0, 1, 2], [2, 1, 0]][order]:
+                pending = [lab for lab in specs[i]['labels'] if lab not in applied[i]]
+                evs = [Evolution(app_label='vfa%d' % i, label=lab) for lab in pending]
+                models_ = [_FakeModelCls('m%d' % i)] if new[i] else []
+                if evs or models_:
+                    g.add_evolutions(app=fa.apps[i], evolutions=evs, new_models=models_,
+                                     extra_state={'task': i})
+            for i in range(N_APPS):
+                g.mark_evolutions_applied(app=fa.apps[i], evolution_labels=list(applied[i]))
+            g.finalize()
+            out = [node.key for _bt, nodes in g.iter_batches() for node in nodes]
+    except CircularDependencyError:
+        return hx.verdict(False, True)
+    units = {}
+    for i in range(N_APPS):
+        units[i] = (['create-model:vfa%d:m%d' % (i, i)] if new[i] else []) + \
+            ['evolution:vfa%d:%s' % (i, lab) for lab in specs[i]['labels'] if lab not in applied[i]]
+    pending_all = [u for i in range(N_APPS) for u in units[i]]
+    ok = sorted(out) == sorted(pending_all)
+    pos = dict((k, j) for j, k in enumerate(out))
+    if ok:
+        for i in range(N_APPS):
+            for a, b in zip(units[i], units[i][1:]):
+                ok = ok and pos[a] < pos[b]
+        if d_kind:
+            src = units[d_from]
+            dst = units[d_to]
+            if d_kind in (1, 3):
+                dst = [u for u in dst if u.endswith(':e1')]
+            for s in src:
+                for t in dst:
+                    ok = ok and (pos[t] < pos[s] if d_kind in (1, 2) else pos[s] < pos[t])
+    return hx.verdict(ok, bool(d_kind) and len(pending_all) >= 2)
